@@ -174,6 +174,8 @@ BASE_ARRAYS = {'cls': IA_I, 'dom': z3.ArraySort(I, KB), 'valR': z3.ArraySort(I, 
 
 class Heap:
     """one snapshot: name -> z3 array term, alloc, globals"""
+    MATERIALIZED = set()       # (tag, array name) of every symbolic array created lazily: the pre-state arrays a proof can depend on
+
     def __init__(self, tagname):
         self.tagname = tagname
         self.arr = {}
@@ -213,6 +215,7 @@ class Heap:
                 from .concrete import _default
                 self.arr[name] = z3.K(I, _default(sort.range()))
                 return self.arr[name]
+            Heap.MATERIALIZED.add((self.tagname, name))
             # lazily materialised arrays share ONE initial symbol per tag so that all snapshots derived
             # from the same origin agree on untouched arrays
             self.arr[name] = z3.Const('%s@%s' % (name, self.tagname), sort)
@@ -267,13 +270,16 @@ def fresh_value(ty, base):
     return V(ty, fresh(base, smt_sort(ty)))
 
 
-def heap_ref_axioms(H):
+def heap_ref_axioms(H, only=None):
     """Language-level invariant assumed of every pre-state: a reference-typed field of an allocated object
-    points to an allocated object (of the kind the static field table declares)."""
+    points to an allocated object (of the kind the static field table declares).
+    only: set of array names actually used by the proof (axioms about arrays no obligation mentions are omitted)"""
     out = []
     for key, ty in sorted(FIELD_TYPES.items()):
         inner = ty.a[0] if ty.k == 'opt' else ty
         if inner.k not in ('ref', 'dict', 'list', 'htuple'):
+            continue
+        if only is not None and ('f:' + key) not in only:
             continue
         cls, attr = key.split('.') if '.' in key else (None, key)
         arr = H.farr(cls, attr)
@@ -1763,7 +1769,7 @@ class Engine:
             st.pc += self.wf_param(H0, v)
         for gv in H0.glob.values():
             st.pc += self.wf_param(H0, gv)
-        st.pc += heap_ref_axioms(H0)
+        Heap.MATERIALIZED = set()
         for lab, f in c.requires(H0, args):
             st.pc.append(f)
         st.pc += c.type_invariants(H0)
@@ -1792,6 +1798,11 @@ class Engine:
             else:
                 self.check_raise_exit(ex, args, H0)
         self.n_normal_exits = n_norm
+        # heap typing axioms for exactly the pre-state field arrays this function's execution touched
+        used = {n for (tg, n) in Heap.MATERIALIZED if tg == 'pre'}
+        glob_ax = heap_ref_axioms(H0, only=used)
+        for ob in self.obls:
+            ob.assumptions = glob_ax + ob.assumptions
         self.canaries = [Obligation('%s/canary.normal_exit_reachable#%d' % (self.qualname, i), ex.state.pc, z3.BoolVal(False), 'canary', ex.line)
                          for i, ex in enumerate(x for x in self.exits if x.kind == 'return')]
         return self.obls
